@@ -4,7 +4,7 @@ open TPV TPV.Proto TPV.UserFun
 
 /-! line protocol of C13:  `run <nops> <op>…` / `runold <nops> <op>…`  →  `<out> # <digest> ; …`
     ops: nd <dict> | wf fn <names> <dflts> | wd fn <names> <dflts> <names of __wrapped__> <dflts of __wrapped__> |
-         wk fn <names> <dflts> <kw-only names> <kw-only defaults dict> | wc fn | we fn <names> <udict|-1> | rw r | ca r <dict> | cv r <dict> <lens> |
+         wk fn <names> <dflts> <kw-only names> <kw-only defaults dict> | wc fn | we fn <names> <udict|-1> | rw r | ca r <dict> | cm r <dict> <fallback|-1> <inserts> | cv r <dict> <lens> |
          pe r <dict> | sd r <dict> | rd r <names> | dc r        (lists are length-prefixed)
     `align <names> <dflts>`, `call <names> <defaults-dict> <env-dict>` evaluate single definitions. -/
 
@@ -12,39 +12,44 @@ def pDict : P Dict := many (do let k ← next; let v ← int; pure (k, v))
 def pNames : P (List String) := many next
 
 /-- user dicts are addressed by their ordinal; the driver maps ordinals to heap cells -/
-def pOp (ud : List Nat) : P (Option Op × Option Callable) := do
+def pOp (ud : List Nat) : P (Option Op × Option Callable × Option Mapping) := do
   let t ← next
   match t with
-  | "nd" => do let d ← pDict; pure (some (.newDict d), none)
+  | "nd" => do let d ← pDict; pure (some (.newDict d), none, none)
   | "wf" => do
     let fn ← nat; let ns ← pNames; let ds ← many int
-    pure (some (.wrapFun fn ns ds), some { fn := fn, names := ns, dflts := ds, wrapped := none })
+    pure (some (.wrapFun fn ns ds), some { fn := fn, names := ns, dflts := ds, wrapped := none }, none)
   | "wk" => do
     -- keyword-only parameters: positional names/defaults, then the kw-only names and their defaults
     let fn ← nat; let ns ← pNames; let ds ← many int; let ks ← pNames; let kd ← pDict
-    pure (some (.wrapFunKw fn ns ds ks kd), some { fn := fn, names := ns, dflts := ds, wrapped := none, kwnames := ks, kwdflts := kd })
+    pure (some (.wrapFunKw fn ns ds ks kd), some { fn := fn, names := ns, dflts := ds, wrapped := none, kwnames := ks, kwdflts := kd }, none)
   | "wd" => do
     -- a function decorated with functools.wraps: own signature, then the signature of __wrapped__
     let fn ← nat; let ns ← pNames; let ds ← many int; let ins ← pNames; let ids ← many int
     let c : Callable := { fn := fn, names := ns, dflts := ds, wrapped := some (ins, ids) }
-    pure (some (.wrapFun fn c.inspected.1 c.inspected.2), some c)
-  | "wc" => do let fn ← nat; pure (some (.wrapConst fn), none)
+    pure (some (.wrapFun fn c.inspected.1 c.inspected.2), some c, none)
+  | "wc" => do let fn ← nat; pure (some (.wrapConst fn), none, none)
   | "we" => do
     let fn ← nat; let ns ← pNames; let c ← int
-    if c < 0 then pure (some (.wrapExplicit fn ns none), some { fn := fn, names := ns, dflts := [], wrapped := none })
+    if c < 0 then pure (some (.wrapExplicit fn ns none), some { fn := fn, names := ns, dflts := [], wrapped := none }, none)
     else match ud[c.toNat]? with
-      | some cell => pure (some (.wrapExplicit fn ns (some cell)), some { fn := fn, names := ns, dflts := [], wrapped := none })
-      | none => pure (none, none)
-  | "rw" => do let r ← nat; pure (some (.rewrap r), none)
-  | "ca" => do let r ← nat; let e ← pDict; pure (some (.call r e), none)
+      | some cell => pure (some (.wrapExplicit fn ns (some cell)), some { fn := fn, names := ns, dflts := [], wrapped := none }, none)
+      | none => pure (none, none, none)
+  | "rw" => do let r ← nat; pure (some (.rewrap r), none, none)
+  | "ca" => do let r ← nat; let e ← pDict; pure (some (.call r e), none, none)
   | "cv" => do
     let r ← nat; let e ← pDict
     let lens ← many (do let v ← int; let n ← nat; pure (v, n))
-    pure (some (.callVec r e lens), none)
-  | "pe" => do let r ← nat; let e ← pDict; pure (some (.partialEval r e), none)
-  | "sd" => do let r ← nat; let e ← pDict; pure (some (.setDefault r e), none)
-  | "rd" => do let r ← nat; let ks ← pNames; pure (some (.removeDefault r ks), none)
-  | "dc" => do let r ← nat; pure (some (.deepcopy r), none)
+    pure (some (.callVec r e lens), none, none)
+  | "cm" => do
+    -- a call whose argument is a user mapping: entries, what m[k] answers for an absent key (-1: KeyError),
+    -- whether that look-up stores the key (defaultdict)
+    let r ← nat; let e ← pDict; let fb ← int; let ins ← bool
+    pure (some (.call r e), none, some ⟨e, if fb < 0 then none else some fb, ins⟩)
+  | "pe" => do let r ← nat; let e ← pDict; pure (some (.partialEval r e), none, none)
+  | "sd" => do let r ← nat; let e ← pDict; pure (some (.setDefault r e), none, none)
+  | "rd" => do let r ← nat; let ks ← pNames; pure (some (.removeDefault r ks), none, none)
+  | "dc" => do let r ← nat; pure (some (.deepcopy r), none, none)
   | _ => throw s!"op:{t}"
 
 def insertSorted (kv : String × Val) : Dict → Dict
@@ -127,8 +132,23 @@ partial def runOps (stp : Heap → Op → Heap × Out) : Nat → Heap → List N
   | 0, _, _, _, acc => pure acc.reverse
   | n+1, h, ud, fns, acc => do
     match (← pOp ud) with
-    | (none, _) => pure (("e:badref # " ++ digest h ud) :: acc).reverse
-    | (some op, c?) =>
+    | (none, _, _) => pure (("e:badref # " ++ digest h ud) :: acc).reverse
+    | (some op, c?, some m) =>
+      -- call with a user mapping: `callM` (contains before getitem), the mapping afterwards is part of the reply
+      let _ := c?
+      let (o, m') : Out × Mapping :=
+        match opRef op with
+        | some r =>
+          match h.look r with
+          | some (u, d) =>
+            match callM u.params d m with
+            | (.ok kw, m') => (if u.callable then .value u.fn kw else .const u.fn, m')
+            | (.error e, m') => (.err e, m')
+          | none => (.err .badRef, m)
+        | none => (.err .badRef, m)
+      let line := showOut h op ud fns o ++ " M" ++ showDict m'.stored ++ " # " ++ digest h ud
+      runOps stp n h ud fns (line :: acc)
+    | (some op, c?, none) =>
       let fns' := match c? with | some c => (c.fn, c) :: fns | none => fns
       let (h', o) := stp h op
       let ud' := match o with | .dict c => ud ++ [c] | _ => ud
